@@ -287,9 +287,16 @@ func (root *Root) addTypes(types ...Type) error {
 				}
 				return fmt.Errorf("%w: %s is already in the schema", ErrDuplicate, name)
 			}
-			switch t.(type) {
+			switch tt := t.(type) {
 			case *List, *NonNull, *Ref:
 				return fmt.Errorf("%w: %s, a %T can not be added", ErrTypeMismatch, name, t)
+			case *Interface:
+				// An interface built by hand and not by the parser does not
+				// know the root its possible types are looked up in.
+				if tt.Root == nil {
+					tt.Root = root
+				}
+				root.types.add(t)
 			default:
 				root.types.add(t)
 			}
